@@ -317,7 +317,7 @@ class Ctx:
         return False, consumed, total
 
     def validate_all(self, module, trace_path, key_of, cfg=None, env=None, max_rejections=8, group_start="Reset",
-                     what_of=None, is_known_only=False):
+                     what_of=None, is_known_only=False, rest_cfg=None):
         """Validate a trace made of executions, each starting with a `group_start` event.
         On rejection the offending execution is recorded as a violation (key from key_of(exec_lines, bad_line)),
         removed, and validation continues so that the rest of the trace is still checked.
@@ -349,7 +349,7 @@ class Ctx:
         cur = trace_path
         rounds = 0
         while groups:
-            ok, consumed, total = self.validate(module, cur, cfg=cfg, env=env)
+            ok, consumed, total = self.validate(module, cur, cfg=(cfg if rounds == 0 else (rest_cfg or cfg)), env=env)
             if ok:
                 break
             # locate the offending execution; everything before it was accepted
@@ -365,7 +365,7 @@ class Ctx:
             # re-run before reporting: the offending execution alone must be rejected again
             solo = os.path.join(self.work, "solo-%d.ndjson" % rounds)
             open(solo, "w").write("\n".join(g) + "\n")
-            ok2, _, _ = self.validate(module, solo, cfg=cfg, env=env)
+            ok2, _, _ = self.validate(module, solo, cfg=(rest_cfg or cfg), env=env)
             if ok2:
                 raise EngineError("trace rejection at line %d of %s did not repeat in isolation" % (idx + 1, cur))
             gl = [json.loads(x) for x in g]
